@@ -274,6 +274,7 @@ func (p *eventPool) get(size int) *Event {
 			// slowest path
 			p.slowWaiters.Inc()
 			p.getMu.Lock()
+			verifGate("pool.std.wait", uint64(x), uint64(p.slowWaiters.Load()))
 			p.getCond.Wait()
 			p.getMu.Unlock()
 			p.slowWaiters.Dec()
@@ -453,6 +454,7 @@ again:
 	p.slowWaiters.Inc()
 	p.getCond.L.Lock()
 	if !p.eventsAvailable() {
+		verifGate("pool.lowmem.wait", uint64(p.slowWaiters.Load()), 0)
 		p.getCond.Wait()
 	}
 	p.getCond.L.Unlock()
